@@ -97,8 +97,10 @@ void globalLedgerInit() {
 }
 void globalLedgerReport() {
     XMLPlatformUtils::Terminate();
+    gOut.line("BEGIN\t__global__");
     gOut.line("GLOBAL-LEDGER\tallocs=" + itos(gGlobalLedgerMM->allocs) + "\toutstanding=" + itos((long long)gGlobalLedgerMM->outstanding()) +
               "\tforeign=" + itos(gGlobalLedgerMM->foreign));
+    gOut.line("END\t__global__");
 }
 
 // ------------------------------------------------------------------------------------------------
@@ -608,5 +610,36 @@ static void cmdParse(const Case& c) {
     delete S;
 }
 static CmdReg regParse("parse", cmdParse);
+
+// initterm: balanced Initialize/Terminate cycles with a custom global manager.  The driver has Initialized once at start
+// (count 1): nest first, then drop to zero and run full cycles on a ledger, then restore the default initialisation.
+static void cmdInitTerm(const Case& c) {
+    long cycles = c.geti("cycles", 2), nest = c.geti("nest", 1);
+    if (gGlobalLedgerMM) { gOut.line("SKIP\tglobal-ledger-mode"); return; }
+    std::string doc = c.steps.empty() ? std::string("<a/>") : c.steps[0].payload;
+    // nested (the library stays initialised; nothing may be torn down)
+    for (long i = 0; i < nest; i++) XMLPlatformUtils::Initialize();
+    for (long i = 0; i < nest; i++) XMLPlatformUtils::Terminate();
+    XMLPlatformUtils::Terminate();   // count -> 0: full termination of the driver's own initialisation
+    for (long k = 0; k < cycles; k++) {
+        Ledger* led = new Ledger("cycle");
+        XMLPlatformUtils::Initialize(XMLUni::fgXercescDefaultLocale, 0, 0, led);
+        for (long i = 0; i < nest; i++) XMLPlatformUtils::Initialize(XMLUni::fgXercescDefaultLocale, 0, 0, led);
+        std::string status = "ok";
+        try {
+            Case cc; cc.id = "it"; cc.cmd = "parse"; cc.opt = c.opt; cc.ents = c.ents; cc.steps = c.steps;
+            cc.opt.erase("cycles"); cc.opt.erase("nest");
+            if (cc.steps.empty()) { Step st; st.kind = "DOC"; st.payload = doc; cc.steps.push_back(st); }
+            cmdParse(cc);
+        } catch (...) { status = "threw"; }
+        for (long i = 0; i < nest; i++) XMLPlatformUtils::Terminate();
+        XMLPlatformUtils::Terminate();
+        gOut.line("CYCLE\t" + itos(k) + "\t" + status + "\tallocs=" + itos(led->allocs) + "\toutstanding=" + itos((long long)led->outstanding()) + "\tforeign=" + itos(led->foreign));
+        delete led;
+    }
+    XMLPlatformUtils::Initialize();
+    installCountingHook();
+}
+static CmdReg regInitTerm("initterm", cmdInitTerm);
 
 }  // namespace xv
